@@ -10,6 +10,7 @@ import (
 	"regexp"
 	"strings"
 
+	"github.com/JunNishimura/Goit/internal/object"
 	"github.com/JunNishimura/Goit/internal/sha"
 	"github.com/spf13/cobra"
 )
@@ -53,6 +54,15 @@ var updateRefCmd = &cobra.Command{
 		newHash, err := sha.ReadHash(hashString)
 		if err != nil {
 			return ErrInvalidHash
+		}
+
+		// the object must be a commit
+		newObject, err := object.GetObject(client.RootGoitPath, newHash)
+		if err != nil {
+			return fmt.Errorf("fail to get object %s: %w", hashString, err)
+		}
+		if _, err := object.NewCommit(newObject); err != nil {
+			return fmt.Errorf("fatal: trying to write non-commit object %s to branch '%s': %w", hashString, args[0], err)
 		}
 
 		if err := client.Refs.UpdateBranchHash(client.RootGoitPath, branchName, newHash); err != nil {
